@@ -461,6 +461,16 @@ def parse(relpath, prefix, repo=None, ext=False, allow_empty=False):
         # keep only declarations located in repository files (drop system headers matching the filter)
         try:
             os.makedirs(cdir, exist_ok=True)
+            # the cache is keyed by the digest of the sources, so every scratch variant of the self-tests adds an entry that is never
+            # used again: keep it bounded (oldest entries go first)
+            names = [n_ for n_ in os.listdir(cdir) if n_.endswith(".pkl")]
+            if len(names) > 200:
+                names.sort(key=lambda n_: os.path.getmtime(os.path.join(cdir, n_)))
+                for n_ in names[:len(names) - 100]:
+                    try:
+                        os.remove(os.path.join(cdir, n_))
+                    except OSError:
+                        pass
             with open(cpath + ".tmp", "wb") as f:
                 pickle.dump(docs, f)
             os.replace(cpath + ".tmp", cpath)
